@@ -372,6 +372,18 @@ func (c *Ctx) checkHistC04x(h hist, cases *[]mcase, stripped bool) {
 					}
 					*cases = append(*cases, mcase{Req: sb.String(), Impl: "rows " + strings.Join(rs, ";"), Rel: "sheet.rows", Desc: h})
 				}
+				// GetCols (raw) vs the model of the Cols iterator (padding and ragged column lengths included)
+				if cols, err := f.GetCols(h.Sheet, excelize.Options{RawCellValue: true}); err == nil {
+					var cs []string
+					for _, col := range cols {
+						var vs []string
+						for _, v := range col {
+							vs = append(vs, hexb(v))
+						}
+						cs = append(cs, strings.Join(vs, ","))
+					}
+					*cases = append(*cases, mcase{Req: "sheet.cols" + strings.TrimPrefix(sb.String(), "sheet.rows"), Impl: "cols " + strings.Join(cs, ";"), Rel: "sheet.cols", Desc: h})
+				}
 			}
 		}
 	}
